@@ -23,15 +23,32 @@ DEF_PTS = {0: 21, 1: 22}
 DEF_RS = (0, 4, 2)          # start, stop, dt-code (dt = code / 2)
 
 
+# value codes (what the Lean model and the views carry) -> the numbers the real code sees.  Codes 0..29 are themselves; wave 7:
+# a negative, a large and a many-decimals value
+SPECIAL = {30: -3.0, 31: 1234567.0, 32: 0.30000000000000004}
+
+
+def VAL(code):
+    return SPECIAL.get(code, float(code))
+
+
+def CODE(x):
+    x = float(x)
+    for k, v in SPECIAL.items():
+        if abs(x - v) <= 1e-9 * max(1.0, abs(v)):
+            return k
+    return int(round(x))
+
+
 class K:
     """model builder, direct-model oracle and line-protocol helpers"""
     @staticmethod
     def pts_val(v):
-        return [[0.0, float(v)], [10.0, float(v) + 5.0]]
+        return [[0.0, VAL(v)], [10.0, VAL(v) + 5.0]]
 
     @staticmethod
     def pts_code(lst):
-        return int(lst[0][1])
+        return CODE(lst[0][1])
 
     @staticmethod
     def build(consts, pts, rs):
@@ -45,7 +62,7 @@ class K:
         for k, n in enumerate(POINTS):
             m.points[n] = K.pts_val(pts[k])
         for k in range(3):
-            cs[k].equation = float(consts[k])
+            cs[k].equation = VAL(consts[k])
         g0.equation = sd.lookup(sd.time(), "p0")
         g1.equation = sd.lookup(sd.time(), "p1")
         f.equation = cs[0] + g0 * cs[1]
@@ -165,7 +182,7 @@ def mrs_of(case):
 
 # ---------------------------------------------------------------- value forms (float / int / string = eval path)
 def ccode(v):
-    return int(eval(v)) if isinstance(v, str) else int(v)
+    return CODE(eval(v)) if isinstance(v, str) else CODE(v)
 
 
 def pcode(v):
@@ -173,6 +190,9 @@ def pcode(v):
 
 
 def const_val(v, style):
+    if v in SPECIAL:
+        x = SPECIAL[v]
+        return repr(x) if style == "str" else int(x) if (style == "int" and x == int(x)) else x
     if style == "str":
         return [f"{v}.0", f"{v - 1}.0 + 1", f"2*{v}/2"][v % 3]
     if style == "int":
@@ -221,7 +241,7 @@ def view_of(sc, model="dsl"):
     return {"consts": {CONSTS.index(k): ccode(v) for k, v in sc.constants.items()},
             "pts": {pn.index(k): pcode(v) for k, v in sc.points.items()},
             "rs": (int(sc.starttime), int(sc.stoptime), int(sc.dt * 2)),
-            "meqs": {k: int(mod.equations[CONSTS[k]](0.0)) for k in range(3)},
+            "meqs": {k: CODE(mod.equations[CONSTS[k]](0.0)) for k in range(3)},
             "mpts": {pn.index(k): pcode(v) for k, v in mod.points.items() if k in pn},
             "mrs": (int(mod.starttime), int(mod.stoptime), int(mod.dt * 2))}
 
@@ -501,6 +521,39 @@ def run_case(case, root, n):
                 v = view_of(sc, case["model"])
                 b.end_session()
                 return v, out
+            if case["channel"] == "session" and case.get("via") == "rest-instance":
+                # wave 7: the same settings through the REST session of a server instance (begin-session carries them)
+                from BPTK_Py.server import BptkServer
+                made = []
+                def factory():
+                    bb = bptk(); quiet_bptk_logging()
+                    bb.register_scenario_manager({"mf": dict(cfg) if xm else {**cfg, "model": K.build(DEF_CONST, DEF_PTS, mrs_of(case))}})
+                    bb.register_scenarios(scenarios={"s0": mk_dict(case, "d0"), "sib": mk_dict(case, "sib")}, scenario_manager="mf")
+                    made.append(bb)
+                    return bb
+                try:
+                    cl = BptkServer(__name__, factory).test_client()
+                    iid = json.loads(cl.post("/start-instance", json={}).data)["instance_uuid"]
+                    inst = made[-1]
+                    cl.post(f"/{iid}/begin-session", json={"scenario_managers": ["mf"], "scenarios": ["s0"], "equations": list(EQS),
+                                                           "settings": {"mf": {"s0": mk_dict(case, "d")}}})
+                    res = {eq: {} for eq in EQS}
+                    for _ in range(40):
+                        r = json.loads(cl.post(f"/{iid}/run-step", json={"settings": {}}).data)
+                        if not r or "msg" in r or "error" in r:
+                            break
+                        for eq, tv in (r.get("mf", {}).get("s0", {}) or {}).items():
+                            for t, x in tv.items():
+                                res.setdefault(eq, {})[float(t)] = float(x)
+                    v = view_of(inst.get_scenario("mf", "s0"), case["model"])
+                    cl.post(f"/{iid}/end-session")
+                    post = inst.run_scenarios(scenarios=["s0"], scenario_managers=["mf"], equations=list(EQS) + ["g0", "g1"], series_names={}, return_format="dict")
+                    EXTRA[n] = {"post": frame_to_dict(post, "mf", "s0")}
+                    sibling_views(inst, n, case["model"])
+                    return v, res, None
+                finally:
+                    for bb in made:
+                        bb.destroy()
             # wave 6: an EVALUATION of the scenario before the settings arrive (the model has been used: memo, derived tables exist)
             pre = case.get("pre")
             if pre == "run":
@@ -545,8 +598,8 @@ def xm_oracle(consts, pts=None):
     s = 0.0
     for k in range(9):
         t = k * dt
-        f = c[0] + g(0, t) * c[1]
-        out["s"][t] = s; out["f"][t] = float(f); out["h"][t] = float(c[2] * g(1, t))
+        f = VAL(c[0]) + g(0, t) * VAL(c[1])
+        out["s"][t] = s; out["f"][t] = float(f); out["h"][t] = float(VAL(c[2]) * g(1, t))
         s = s + dt * f
     return out
 
@@ -558,8 +611,10 @@ def oracle(model, exp):
 
 
 def rand_case(rng, channel, model):
-    def store(n, lo=0, hi=9, p=2):          # wave 4: the value 0 (a falsy constant / table level) is generated too
-        return {k: rng.range(lo, hi) for k in rng.shuffle(range(n))[:rng.range(1, n)]} if rng.chance(1, p) else {}
+    def value():                            # wave 4: 0 (falsy) is generated too; wave 7: negative, large, many decimals
+        return rng.choice(sorted(SPECIAL)) if rng.chance(1, 6) else rng.range(0, 9)
+    def store(n, lo=0, hi=9, p=2):
+        return {k: value() for k in rng.shuffle(range(n))[:rng.range(1, n)]} if rng.chance(1, p) else {}
     def dct(runspecs=True):
         d = {}
         c, p = store(3), store(2)
@@ -576,7 +631,9 @@ def rand_case(rng, channel, model):
         case["mrs"] = list(rng.choice(MRS_CHOICES))
     if channel in ("session", "rest") or (channel == "file" and rng.chance(1, 3)):
         case["d"] = dct(rs_ok)
-    if channel in ("session", "rest"):
+    if channel == "session" and rng.chance(1, 4):
+        case["via"] = "rest-instance"                # the session of a server instance: begin-session carries the settings
+    elif channel in ("session", "rest"):
         # wave 6: the scenario has been EVALUATED before the settings arrive (run / session steps / REST run), and half of the cases
         # supply a second settings dictionary afterwards, preferably for a key the first one already set
         case["pre"] = rng.choice([None, "run", "step", "rest", "run", "rest"])
@@ -630,6 +687,79 @@ def rand_case(rng, channel, model):
     return case
 
 
+# ---------------------------------------------------------------- wave 7: process-level state — several file-based managers in one process
+def two_managers(case, root, n):
+    """two file-based managers A, B of one project (each in its own scenario file, BOTH with a scenario named s0) and a second bptk
+    object of the same process loaded from another project with other file names.  Settings are supplied to B/s0; then scenario A/s0 is
+    reset (bptk.reset_scenario, the documented way to re-read one scenario).  B/s0 must still run with its settings, A/s0 with its file
+    values; resetting a scenario of the second object must work.  Returns violations [(key, text)]."""
+    from BPTK_Py import bptk
+    isolate_process_state()      # the finding must come from THIS case's managers, not from lists left by earlier cases
+    viols = []
+    subs = []
+    for j, files in enumerate((("a", "b"), ("c",))):
+        sub = os.path.join(root, f"two{n}_{j}")
+        shutil.rmtree(sub, ignore_errors=True)
+        os.makedirs(os.path.join(sub, "scenarios")); os.makedirs(os.path.join(sub, f"c07two{n}_{j}"))
+        open(os.path.join(sub, f"c07two{n}_{j}", "__init__.py"), "w").close()
+        with open(os.path.join(sub, f"c07two{n}_{j}", "mod.py"), "w") as f:
+            f.write(MODEL_SRC % {"start": float(DEF_RS[0]), "stop": float(DEF_RS[1]), "dt": DEF_RS[2] / 2.0, "consts": CONSTS,
+                                 "pts": {POINTS[k]: K.pts_val(v) for k, v in DEF_PTS.items()}, "vals": [float(DEF_CONST[k]) for k in range(3)]})
+        for name in files:
+            mgr = {name.upper(): {"model": f"c07two{n}_{j}/mod", "scenarios": {"s0": {"constants": {CONSTS[k]: VAL(v) for k, v in case[name].items()}}}}}
+            with open(os.path.join(sub, "scenarios", name + ".json"), "w") as f:
+                json.dump(mgr, f)
+        subs.append(sub)
+    cwd = os.getcwd()
+    objs = []
+    def run(b, mgr):
+        return frame_to_dict(b.run_scenarios(scenarios=["s0"], scenario_managers=[mgr], equations=list(EQS), series_names={}, return_format="dict"), mgr, "s0")
+    try:
+        with contextlib.redirect_stdout(io.StringIO()):
+            os.chdir(subs[0]); sys.path.insert(0, subs[0])
+            b = bptk(); quiet_bptk_logging(); objs.append(b)
+            os.chdir(subs[1]); sys.path.insert(0, subs[1])
+            b2 = bptk(); quiet_bptk_logging(); objs.append(b2)
+            os.chdir(subs[0])
+            stg = {"constants": {CONSTS[k]: VAL(v) for k, v in case["set"].items()}}
+            b.begin_session(scenarios=["s0"], scenario_managers=["B"], equations=list(EQS), settings={"B": {"s0": stg}})
+            b.end_session()
+            want_b = K.oracle_run({**DEF_CONST, **case["b"], **case["set"]}, DEF_PTS, DEF_RS)
+            want_a = K.oracle_run({**DEF_CONST, **case["a"]}, DEF_PTS, DEF_RS)
+            if run(b, "B") != want_b:
+                viols.append(("two-managers-settings", "B/s0 after its settings: " + K.first_diff(run(b, "B"), want_b)))
+            try:
+                b.reset_scenario(scenario_manager="A", scenario="s0")
+            except Exception as e:
+                viols.append(("other-manager-reset", f"reset_scenario('A', 's0') raised {type(e).__name__}: {e}"))
+            got = run(b, "B")
+            if not viols and got != want_b:
+                viols.append(("other-manager-reset", f"settings {case['set']} were supplied to B/s0 (file constants {case['b']}); after reset_scenario('A', 's0') "
+                              f"B/s0 runs with constants {view_of(b.get_scenario('B', 's0'))['consts']}: " + K.first_diff(got, want_b)))
+            if not viols and run(b, "A") != want_a:
+                viols.append(("other-manager-reset", "A/s0 after its own reset: " + K.first_diff(run(b, "A"), want_a)))
+            os.chdir(subs[1])
+            try:
+                b2.reset_scenario(scenario_manager="C", scenario="s0")
+                if run(b2, "C") != K.oracle_run({**DEF_CONST, **case["c"]}, DEF_PTS, DEF_RS):
+                    viols.append(("other-object-reset", "C/s0 of a second bptk object after its reset differs from the model built with its file values"))
+            except Exception as e:
+                if not viols:
+                    viols.append(("other-object-reset", f"second bptk object of the process (project with scenarios/c.json): reset_scenario('C', 's0') raised {type(e).__name__}: {e}"))
+    finally:
+        for o in objs:
+            o.destroy()
+        os.chdir(cwd)
+        for sub in subs:
+            if sub in sys.path: sys.path.remove(sub)
+    return viols
+
+
+def rand_two_managers(rng):
+    st = lambda: {k: rng.range(0, 9) for k in rng.shuffle(range(3))[:rng.range(1, 2)]}
+    return {"a": st(), "b": st(), "c": st(), "set": {k: rng.range(0, 9) for k in rng.shuffle(range(3))[:rng.range(1, 3)]}}
+
+
 FIXED = [
     {"channel": "dict", "model": "dsl", "bc": {}, "bp": {}, "d0": {}, "files2": []},                                   # no override
     {"channel": "dict", "model": "dsl", "bc": {}, "bp": {}, "d0": {"start": 1, "stop": 3, "dt": 1}, "files2": []},     # DESIGN §1 witness
@@ -663,6 +793,8 @@ FIXED = [
     {"channel": "session", "model": "dsl", "mrs": [1, 5, 2], "bc": {1: 2}, "bp": {}, "d0": {"pts": {0: 4}}, "pre": "step", "d": {"consts": {1: 5}, "pts": {0: 9}}, "d2": {"consts": {1: 0}, "pts": {0: 0}, "start": 0}, "files2": []},
     {"channel": "session", "model": "xmile", "bc": {}, "bp": {}, "d0": {}, "pre": "run", "d": {"pts": {0: 7}}, "d2": {"pts": {0: 2}}, "files2": []},
     {"channel": "rest", "model": "xmile", "bc": {}, "bp": {1: 3}, "d0": {}, "pre": "rest", "d": {"pts": {1: 7}, "consts": {0: 3}}, "files2": []},
+    {"channel": "session", "via": "rest-instance", "model": "dsl", "mrs": [1, 5, 2], "bc": {0: 2}, "bp": {0: 3}, "d0": {}, "d": {"consts": {0: 30, 1: 32}, "pts": {0: 7}, "start": 0}, "files2": []},
+    {"channel": "session", "via": "rest-instance", "model": "xmile", "bc": {}, "bp": {}, "d0": {"consts": {2: 31}}, "d": {"pts": {1: 30}}, "files2": []},
     # n files, YAML + JSON, a consistent duplicate, string-valued and int-valued settings
     {"channel": "file", "model": "dsl", "bc": {0: 4}, "bp": {}, "d0": {"consts": {1: 3}, "pts": {1: 6}}, "sib": {"consts": {2: 5}},
      "files2": [({2: 8}, {0: 2}), ({0: 4}, {}), ({1: 7}, {0: 2})], "fmt": ["yml", "json", "yml", "json"], "order": [3, 1, 0, 2],
@@ -851,7 +983,7 @@ def check_case(case, root, n):
             # application reaches evaluation: the evaluation machine of the Lean model on the same history; what the last evaluation
             # read for each graphical function = the level of g_j at the start time in the real results
             t0 = float(exp["mrs"][0])
-            reads = {j: int(round(extra["post"]["g%d" % j][t0] - 0.5 * t0)) for j in range(2)}
+            reads = {j: CODE(extra["post"]["g%d" % j][t0] - 0.5 * t0) for j in range(2)}
             mrs = "/".join(map(str, mrs_of(case)))
             ap = lambda e: f"eapply {K.st(e['consts'])} {K.st(e['pts'])} {'/'.join(map(str, e['rs']))}"
             pairs.append((f"enew {mrs} {K.st(DEF_PTS)}", "ok"))
@@ -999,6 +1131,7 @@ def _run(chk, root):
                        "order / session / REST) x model type (DSL, XMILE-sourced) with random constants, points, run specs at manager and scenario level, values as float / int / string; a case = "
                        "(channel, model type, base constants, base points, scenario dictionary, sibling dictionary, later settings, further files, formats, value forms); every case also registers a "
                        "sibling before and one after the settings and runs them; non-trivial = at least one override")
+    two_first = {}
     req, real, first, dist = [f"cfg {' '.join('1' if facts[k] else '0' for k in FACTS)}"], ["ok"], {}, {}
     forms = {"str": 0, "int": 0, "yml_files": 0, "files": 0, "sibling_checks": 0}
     for n, case in enumerate(cases):
@@ -1008,12 +1141,30 @@ def _run(chk, root):
             forms[s[3]] += 1
         forms["yml_files"] += sum(1 for f in case.get("fmt", []) if f == "yml"); forms["files"] += len(case.get("fmt", []))
         forms["sibling_checks"] += 1 if len(pairs) > 1 else 0
+        for key_, cond in (("session via REST instance", case.get("via") == "rest-instance"), ("evaluated before settings", bool(case.get("pre"))),
+                           ("two successive settings", case.get("d2") is not None), ("model start != 0", mrs_of(case)[0] != 0),
+                           ("override towards 0", any((case.get(w) or {}).get("start") == 0 for w in ("d0", "d", "d2"))),
+                           ("value 0", any(0 in ((case.get(w) or {}).get(kk) or {}).values() for w in ("d0", "d", "d2", "sib") for kk in ("consts", "pts")) or 0 in case["bc"].values()),
+                           ("negative/large/many-decimals value", any(x in SPECIAL for w in ("d0", "d", "d2", "sib") for kk in ("consts", "pts") for x in ((case.get(w) or {}).get(kk) or {}).values())
+                            or any(x in SPECIAL for x in list(case["bc"].values()) + list(case["bp"].values())))):
+            forms[key_] = forms.get(key_, 0) + (1 if cond else 0)
         chk.case(json.dumps(case, sort_keys=True), nontrivial=bool(case["bc"] or case["bp"] or case["d0"] or case.get("d")),
                  sample=case if n % 9 == 0 else None)
         for r, p in pairs:
             req.append(r); real.append(p)
         for key, text in viols:
             first.setdefault(key, (case, text))
+    twos = [{"a": {0: 2}, "b": {0: 3}, "c": {1: 4}, "set": {0: 10 % 10 + 7}}] + [rand_two_managers(rng.fork("two%d" % i)) for i in range(3 if chk.quick else 20)]
+    for i, tc in enumerate(twos):
+        try:
+            tv = two_managers(tc, root, i)
+        except Exception as e:
+            tv = [("two-managers-raises", f"{type(e).__name__}: {e}")]
+        chk.case(json.dumps({"two_managers": {k: {str(a): b for a, b in v.items()} for k, v in tc.items()}}, sort_keys=True), nontrivial=True)
+        for key, text in tv:
+            if key not in first and key not in two_first:
+                two_first[key] = (tc, text)
+    dist["two file managers + second bptk object, reset_scenario"] = len(twos)
     chk.cov["case_distribution"] = dist
     chk.cov["value_forms_and_files"] = forms
     chk.cov["traces_validated_against_impl"] = len(req) - 1
@@ -1031,12 +1182,15 @@ def _run(chk, root):
                         "({'constants': {'c0': 9.0}, 'points': {'p0': …}}) on one scenario of a manager with base_constants {'c0': 4.0}, base_points {'p0': …} changed a sibling, "
                         f"a later scenario or the manager's base values (dict registration ok: {facts['ownsDictsDetail'].get('dict')}, scenario files ok: {facts['ownsDictsDetail'].get('file')})",
                         {"probe": facts["ownsDictsDetail"], "theorem": "Bptk.C07.C07_witness_shared_base"})
+    for key, (tc, text) in two_first.items():
+        chk.add_finding(key, f"one project, scenarios/a.json = manager A {{s0: constants {tc['a']}}}, scenarios/b.json = manager B {{s0: constants {tc['b']}}}; a second bptk object "
+                        f"from a project with scenarios/c.json: {text}", {"two_managers": tc})
     if not facts["evalReadsCurrent"] and not any("results" in k for k in first):
         chk.add_finding("settings-after-evaluation", f"probe: evaluate, supply settings, evaluate — the second evaluation does not use the supplied value: rows (kind, demanded, used) = {facts['evalRows']}",
                         {"probe_rows": facts["evalRows"], "theorem": "Bptk.C07.C07_witness_derived_table"})
     if not ok:
         chk.add_finding("obligation", f"proof obligations of C07 no longer check: {why}", {"theorem": "Bptk.C07.Gen.holds", "detail": why}, found_input=False)
-    if diff is not None and not first:
+    if diff is not None and not first and not two_first:
         chk.add_finding("correspondence", f"model and implementation disagree on request {req[diff]!r}",
                         {"request": req[diff], "context": req[max(0, diff - 8):diff + 1], "model": model[diff] if diff < len(model) else None,
                          "impl": real[diff] if diff < len(real) else None}, found_input=False)
@@ -1053,6 +1207,15 @@ def replay(path):
         if isinstance(o, dict):
             return {(int(k) if isinstance(k, str) and k.isdigit() else k): fix(v) for k, v in o.items()}
         return o
+    if "two_managers" in r:
+        tc = fix(r["two_managers"])
+        root = scratch_dir("c07"); cwd = os.getcwd(); os.chdir(root)
+        try:
+            viols = two_managers(tc, root, 0)
+        finally:
+            os.chdir(cwd); shutil.rmtree(root, ignore_errors=True)
+        print("two managers:", tc); print("violations on the current tree:", viols)
+        return 1 if viols else 0
     if "case" not in r:
         print("no concrete input stored:", r); return 1
     case = fix(r["case"])
